@@ -34,7 +34,7 @@ CHECKS = {
                     "equality. Does not decide value-level equality of the resulting spellings for all inputs.",
             "note": TB + "; type-carrying fields taken from the parser classes' own annotations"},
     "C03": {"engine": "E+F+G", "design_ref": "DESIGN.md section 3 C03",
-            "technique": "static analysis: node-kind / member-kind exhaustiveness between grammar, instantiator and emitter dispatch; dominance of filter/ignore/escape steps over the emissions they protect; guards of wrap_namespace read as constraints on the depth relative to the top namespace (abstract evaluation for d=-2..2); folded-template slot provenance",
+            "technique": "static analysis: node-kind / member-kind exhaustiveness between grammar, instantiator and emitter dispatch; dominance of filter/ignore/escape steps over the emissions they protect; guards of wrap_namespace read as constraints on the depth relative to the top namespace (abstract evaluation for d=-2..2); _partial_match and _gen_module_var evaluated by the analyser's interpreter on sample namespace paths; folded-template slot provenance",
             "text": "Decides that every node and member kind the instantiated tree can contain has an emitter, that "
                     "the top-namespace filter, the ignore test, the once-per-submodule declaration and the keyword "
                     "escape dominate the emissions they protect, and that namespace depth is computed relative to "
@@ -65,7 +65,7 @@ CHECKS = {
                     "recorded. 'k+1 arities for all k' as arithmetic and MATLAB isa semantics are not decided.",
             "note": TB},
     "C07": {"engine": "G+F", "design_ref": "DESIGN.md section 3 C07",
-            "technique": "static analysis: end-anchor and capture-completeness of the grammar, call-graph effect analysis (may-reject before first write on all paths), handler audit, validated-lookup returns, boundedness of free-text token classes",
+            "technique": "static analysis: end-anchor and capture-completeness of the grammar, call-graph effect analysis (may-reject before first write on all paths), handler audit, validated-lookup returns, boundedness of free-text token classes, name-dispatch chains over open name sets reject what they do not list",
             "text": "Decides: the parse root is end-anchored and is the only parse entry; every accepted token "
                     "reaches the tree; the parser terminates structurally (no left recursion / nullable "
                     "repetition); no handler on a path from the entry points swallows a parse/validation error; "
@@ -75,7 +75,7 @@ CHECKS = {
                     "language.",
             "note": TB + "; rejections are ParseBaseException/ValueError/AssertionError; asserts active (no -O)"},
     "C08": {"engine": "F", "design_ref": "DESIGN.md section 3 C08",
-            "technique": "static analysis: shape of every itertools.product site, typedef-path binding resolved before any content replacement, pass-through loop structure, single naming helper, no shared resolution state",
+            "technique": "static analysis: shape of every itertools.product site, typedef-path binding resolved before any content replacement, pass-through loop structure, single naming helper, no shared resolution state, parent links stay truthy, Typename.instantiated_name evaluated by the analyser's interpreter on sample type trees",
             "text": "Decides that instantiations are enumerated as the Cartesian product of the parsed lists in "
                     "declaration order at all three levels, that typedefs build exactly one instantiation with "
                     "the typedef's arguments and name, that everything else passes through once in order, and "
@@ -156,7 +156,7 @@ CHECKS = {
                     "call histories are not decided.",
             "note": "trusted: clang 14 parser/Sema; /verif/stubs declare the documented MEX C API and minimal gtsam types"},
     "C19": {"engine": "G", "design_ref": "DESIGN.md section 3 C19",
-            "technique": "static analysis: memoisation-enabled lint over all modules + left-recursion/nullable-repetition/alternative-order analysis of the grammar IR, recursion fan-out of methods reachable from parse actions (call graph by name)",
+            "technique": "static analysis: memoisation-enabled lint over all modules + left-recursion/nullable-repetition/alternative-order analysis of the grammar IR, recursion fan-out of methods reachable from parse actions (call graph by name), no nested parse inside parse actions, regex ASTs (re._parser) checked for ambiguous nested repetition",
             "text": "Decides the structural preconditions of polynomial parsing (memoisation on, unconditional, "
                     "never overridden; no left recursion; no nullable repetition). No time bound is claimed: "
                     "timing is a run-time quantity.",
